@@ -257,6 +257,11 @@ func root(v ssa.Value) ssa.Value {
 			v = x.X
 		case *ssa.UnOp:
 			if x.Op == token.MUL {
+				if a, ok := x.X.(*ssa.Alloc); ok {
+					if p := paramSpill(a); p != nil {
+						return p // a parameter kept in memory because a closure (a deferred log line, …) captures it
+					}
+				}
 				v = x.X
 			} else {
 				return v
@@ -284,6 +289,60 @@ func root(v ssa.Value) ssa.Value {
 		}
 	}
 	return v
+}
+
+// paramSpill: a is the cell of a parameter that is never assigned again —
+// its one store is the parameter itself, in the function or in any closure
+// that captures the cell.
+func paramSpill(a *ssa.Alloc) *ssa.Parameter {
+	if a.Referrers() == nil {
+		return nil
+	}
+	var param *ssa.Parameter
+	var written func(refs []ssa.Instruction, cell ssa.Value, depth int) bool
+	written = func(refs []ssa.Instruction, cell ssa.Value, depth int) bool {
+		for _, r := range refs {
+			switch x := r.(type) {
+			case *ssa.Store:
+				if x.Addr != cell {
+					return true // the cell's address is stored somewhere
+				}
+				if p, ok := x.Val.(*ssa.Parameter); ok && cell == ssa.Value(a) && param == nil {
+					param = p
+					continue
+				}
+				return true
+			case *ssa.UnOp:
+				if x.Op != token.MUL {
+					return true
+				}
+			case *ssa.MakeClosure:
+				if depth > 3 {
+					return true
+				}
+				fn, _ := x.Fn.(*ssa.Function)
+				if fn == nil {
+					return true
+				}
+				for i, b := range x.Bindings {
+					if b == cell && i < len(fn.FreeVars) {
+						fv := fn.FreeVars[i]
+						if fv.Referrers() != nil && written(*fv.Referrers(), fv, depth+1) {
+							return true
+						}
+					}
+				}
+			case *ssa.DebugRef:
+			default:
+				return true // address passed on
+			}
+		}
+		return false
+	}
+	if written(*a.Referrers(), a, 0) {
+		return nil
+	}
+	return param
 }
 
 // Root is exported for rules.
